@@ -46,11 +46,11 @@ TIMEOUT = {"quick": 1200, "thorough": 7200}
 
 # total number of generated histories per family (split over the shards)
 BUDGET = {
-    "quick": {"ext": 1600, "time": 320, "frf": 200, "psd": 160, "tree": 280, "uf": 640},
+    "quick": {"ext": 2400, "time": 480, "frf": 320, "psd": 240, "tree": 480, "uf": 960},
     "thorough": {"ext": 48000, "time": 8000, "frf": 5000, "psd": 4000, "tree": 7000,
                  "uf": 20000},
 }
-NSLICE = {"quick": 8, "thorough": 16}
+NSLICE = {"quick": 16, "thorough": 16}
 
 
 def shards(tier, seed):
